@@ -366,6 +366,7 @@ type vAct struct {
 	S     string           `json:"s"`
 	C     int              `json:"c"`
 	V     int64            `json:"v"`
+	Back  bool             `json:"back"` // v = minus the stream's running total: the total returns to exactly zero
 	R     string           `json:"r"`
 	Temp  string           `json:"temp"`
 	Out   map[string]int64 `json:"out"`
@@ -379,17 +380,17 @@ type vConc struct {
 }
 
 func vclass(acts []vAct, k string) string {
-	var neg, zero, pos bool
+	var neg, zero, pos, back bool
 	for _, a := range acts {
 		if a.Op == "Add" && a.S == k {
-			neg, zero, pos = neg || a.V < 0, zero || a.V == 0, pos || a.V > 0
+			neg, zero, pos, back = neg || a.V < 0, zero || a.V == 0, pos || a.V > 0, back || a.Back
 		}
 	}
 	var c []string
 	for _, x := range []struct {
 		b bool
 		s string
-	}{{neg, "neg"}, {zero, "zero"}, {pos, "pos"}} {
+	}{{neg, "neg"}, {zero, "zero"}, {pos, "pos"}, {back, "back"}} {
 		if x.b {
 			c = append(c, x.s)
 		}
@@ -398,6 +399,24 @@ func vclass(acts []vAct, k string) string {
 		return "none"
 	}
 	return strings.Join(c, "+")
+}
+
+// per-class quota: a deviation with thousands of hits must not crowd out another class (vh.Result keeps 200 mismatches)
+var (
+	vQuotaMu sync.Mutex
+	vQuota   = map[string]int{}
+)
+
+func addMismatchQ(res *vh.Result, m vh.Mismatch) {
+	b, _ := json.Marshal(m.Case)
+	vQuotaMu.Lock()
+	vQuota[string(b)]++
+	n := vQuota[string(b)]
+	vQuotaMu.Unlock()
+	res.Count("mismatch_"+m.Kind, 1)
+	if n <= 2 {
+		res.AddMismatch(m)
+	}
 }
 
 func replayEdge(base vConfig, acts []vAct, cc vConc, res *vh.Result) {
@@ -418,6 +437,9 @@ func replayEdge(base vConfig, acts []vAct, cc vConc, res *vh.Result) {
 	for i, a := range acts {
 		if a.Op == "Add" {
 			w.add(a.S, a.V)
+			if a.Back {
+				res.Count("replay_adds_back_to_zero", 1)
+			}
 			res.Count("replay_adds_"+map[bool]string{true: "neg", false: map[bool]string{true: "zero", false: "pos"}[a.V == 0]}[a.V < 0], 1)
 			continue
 		}
@@ -446,14 +468,14 @@ func replayEdge(base vConfig, acts []vAct, cc vConc, res *vh.Result) {
 				kind = "monotonic-decreased"
 			}
 			sk := cfg.SK[k]
-			res.AddMismatch(vh.Mismatch{Kind: kind,
+			addMismatchQ(res, vh.Mismatch{Kind: kind,
 				Case: map[string]any{"stage": "values", "dir": "spec->code", "kind": kind, "inst": sk.Inst, "num": cc.num, "scale": cc.scale,
 					"temp": a.Temp, "rkind": cfg.RD[a.R].Kind, "vclass": vclass(acts, k)},
 				Path: acts[:i], Act: a, Want: want, Got: map[string]any{"value": g, "unprojectable": bad, "stream": k, "config": cfg.Name}})
 		}
 		for k, why := range got.bad {
 			if _, planned := a.Out[k]; !planned && last {
-				res.AddMismatch(vh.Mismatch{Kind: "unrepresentable-sum",
+				addMismatchQ(res, vh.Mismatch{Kind: "unrepresentable-sum",
 					Case: map[string]any{"stage": "values", "dir": "spec->code", "kind": "unrepresentable-sum", "num": cc.num, "scale": cc.scale,
 						"temp": a.Temp}, Path: acts[:i], Act: a, Detail: why})
 			}
@@ -561,6 +583,7 @@ func valuesRandom(n int, tw *vh.TraceWriter, res *vh.Result) {
 		// value regime of the scenario: mostly positive (the common case), mixed signs, mostly negative
 		pneg := []int{5, 35, 80}[r.Intn(3)]
 		digit := map[string]int{}
+		total := map[string]int64{}
 		live := append([]string{}, cfg.ROrder...)
 		nops := 8 + r.Intn(60)
 		collect := func(rn, via string) {
@@ -594,8 +617,11 @@ func valuesRandom(n int, tw *vh.TraceWriter, res *vh.Result) {
 			}
 			k := keys[r.Intn(len(keys))]
 			var v int64
+			back := false
 			switch x := r.Intn(100); {
-			case x < 12 || digit[k] >= 15:
+			case x < 10 && total[k] != 0: // the application's total returns to exactly zero (bookkeeping of the inputs, not an expectation)
+				v, back = -total[k], true
+			case x < 22 || digit[k] >= 15:
 				v = 0
 			default:
 				v = int64(1) << (2 * uint(digit[k]))
@@ -604,8 +630,12 @@ func valuesRandom(n int, tw *vh.TraceWriter, res *vh.Result) {
 					v = -v
 				}
 			}
-			tw.Emit(map[string]any{"ev": "Add", "sc": sc, "s": k, "v": v})
+			tw.Emit(map[string]any{"ev": "Add", "sc": sc, "s": k, "v": v, "back": back})
 			w.add(k, v)
+			total[k] += v
+			if back {
+				res.Count("random_adds_back_to_zero_"+cfg.SK[k].Inst, 1)
+			}
 			res.Count("random_adds_"+cfg.SK[k].Inst+"_"+map[bool]string{true: "neg", false: map[bool]string{true: "zero", false: "pos"}[v == 0]}[v < 0], 1)
 		}
 		// final collection points: Shutdown of a periodic reader performs one, every other reader collects once more
